@@ -29,7 +29,8 @@ REQUIRED = {"reporter.tables_match_census": {"quick": 800, "thorough": 40000},
             "collector.counts_match_census": {"quick": 800, "thorough": 40000},
             "collector.text_matches_census": {"quick": 4000, "thorough": 200000},
             "lists.failing_and_errored": {"quick": 1600, "thorough": 80000},
-            "conservation.sum_equals_elements": {"quick": 3000, "thorough": 150000}}
+            "conservation.sum_equals_elements": {"quick": 3000, "thorough": 150000},
+            "collector.delegation_form_counts_match_census": {"quick": 800, "thorough": 40000}}
 REQUIRED_SEEN = {"scenario_status_counted": ["passed", "failed", "error", "hook_error", "skipped", "untested"],
                  "format_printed": FORMATS, "feature_titles": ["unique", "duplicate"],
                  "interim_summary": ["printed_from_after_feature"]}
@@ -238,6 +239,23 @@ def check_run(lab, mon, case, obs, reps, fmt_used):
     for kind, obj in (("feature", wc.features), ("rule", wc.rules), ("scenario", wc.scenarios), ("step", wc.steps)):
         got = {k.name: v for k, v in obj.items() if v}
         mon.check("collector.call_form_counts_match_census", got == cen[kind], lambda: W(kind=kind, got=got, want=cen[kind], form="collector(feature)"))
+    # delegation-based use (documented in ModelVisitor): a walking visitor that hands every element to a collector it was given
+    from behave.model_visitor import ModelVisitor
+    delegate = SummaryCollector()
+    walker = ModelVisitor(visitor=delegate)
+    try:
+        if len(obs.features) % 2:
+            walker.visit_many(obs.features)
+        else:
+            for f in obs.features:
+                walker.visit_feature(f)
+        dc = delegate.summary_counts if hasattr(delegate, "summary_counts") else delegate.counts
+        for kind, obj in (("feature", dc.features), ("rule", dc.rules), ("scenario", dc.scenarios), ("step", dc.steps)):
+            got = {k.name: v for k, v in obj.items() if v}
+            mon.check("collector.delegation_form_counts_match_census", got == cen[kind],
+                      lambda: W(kind=kind, got=got, want=cen[kind], form="ModelVisitor(visitor=SummaryCollector())"))
+    except Exception as ex:
+        mon.check("collector.delegation_form_counts_match_census", False, lambda: W(error=repr(ex), form="ModelVisitor(visitor=SummaryCollector())"))
     for rep, impl in ((v1, "reporter"), (v2, "collector")):
         buf = io.StringIO()
         rep.stream = io.StringIO()                  # a report written to the caller's own stream goes there, all of it
